@@ -243,6 +243,12 @@ void c09_cond_wait_hook(void *cond, void *lock)
 	 * wait ends the way harness_delwait proves the loop ends it: callback finished, current_event cleared,
 	 * waiters reset, broadcast. */
 	if (waits_in_cb >= 2) { base->current_event = NULL; base->current_event_waiters = 0; modelled_finish = 1; }
+#else
+	/* A library that re-checks current_event in a loop around the wait (fixes/C09-del-wait-loop.diff) comes back here,
+	 * because this sequential wait returned with the callback still current.  The second wait is then ended the way a
+	 * real one ends: the callback is over (current_event cleared).  The waiter stays counted, so the loop's real
+	 * broadcast is still demanded below.  Not reachable with a single `if`-guarded wait. */
+	if (waits_in_cb >= 2) { base->current_event = NULL; modelled_finish = 1; }
 #endif
 	/* (sequential execution: the wait returns; the broadcast that would end it is checked after the loop) */
 }
@@ -299,7 +305,8 @@ static void delwait_call(void)
 	VP_ASSERT(expect_wait == C09_EXPECT, "harness: expectation table of props/C09.py agrees with the contract");
 #if C09_EXPECT == 1
 	{
-		VP_ASSERT(vp_cond_waits == w0 + 1, "C09: the call returned without waiting for the running callback of its event");
+		VP_ASSERT(vp_cond_waits >= w0 + 1, "C09: the call returned without waiting for the running callback of its event");
+		VP_ASSERT(vp_cond_waits <= w0 + 2, "harness: at most one re-check of the wait");
 		VP_ASSERT(wait_depth_ok, "C09: condition wait with the base lock held more than once (the wait releases one level only)");
 		VP_ASSERT(wait_counted, "C09: waiter not counted in current_event_waiters (the loop would not broadcast)");
 		VP_ASSERT(wait_current_ok, "C09: waited while another callback was current");
